@@ -267,14 +267,14 @@ def gen_cfg(rnd, meta):
     return c
 
 
-POLICIES = ["accept", "bernoulli", "decline_heavy", "prefer_agv", "decline_machine", "alternate", "multi", "pileup"]
+POLICIES = ["accept", "bernoulli", "decline_heavy", "prefer_agv", "decline_machine", "alternate", "multi", "pileup", "decline_agv"]
 
 
 def gen_policy(rnd, family=None):
     k = rnd.choice(POLICIES + ["bernoulli", "accept"])
     if family == "ordered" and rnd.random() < 0.6:
         k = "pileup"
-    return {"kind": k, "p": rnd.choice([0.5, 0.7, 0.9]), "seed": rnd.randrange(1 << 30)}
+    return {"kind": k, "p": rnd.choice([0.5, 0.7, 0.9]), "seed": rnd.randrange(1 << 30), "idle": rnd.choice([0, 0, 2, 5, 10])}
 
 
 def gen_scenario(seed, family=None):
@@ -316,6 +316,37 @@ MALFORMED = ["job-typo", "job-ragged", "job-machine-out-of-range", "job-negative
              "logistics-negative-amount", "buffer-unknown-type", "buffer-negative-capacity", "buffer-unknown-role",
              "buffer-no-output-role", "outage-unknown-type", "outage-missing-duration", "init-agv-unknown-location",
              "init-job-unknown-location", "no-specification", "no-instance-config"]
+
+
+def hesitant_stream(seed):
+    """directed scenarios for the truncation accounting at the very end of an episode (C04, C18): a tiny
+    classic instance, early transport off, truncation on, an agent that idles `idle` steps, then starts
+    every operation but declines every AGV offer - for every allowance / idle combination, so that some
+    runs spend their last joker exactly on the no-op that finishes the episode"""
+    out = []
+    rnd = random.Random(seed * 131 + 7)
+    for inst_k in range(2):
+        nj, nm = (2, 2) if inst_k == 0 else (3, 2)
+        jobs = []
+        for j in range(nj):
+            route = list(range(nm))
+            rnd.shuffle(route)
+            jobs.append([(m, rnd.choice((1, 2, 3))) for m in route])
+        base = c06_tree_scenario(jobs, f"hes{seed}-{inst_k}")
+        for joker in (0, 1, 3, 5):
+            for idle in range(0, 13):
+                sc = dict(base)
+                sc.pop("c06tree", None)
+                sc.pop("tree_cap", None)
+                sc["id"] = f"hesitant-{seed}-{inst_k}-{joker}-{idle}"
+                sc["family"] = "classic"
+                sc["cfg"] = dict(base["cfg"], allow_early=False, joker=joker, trunc_active=True, trunc=-1)
+                sc["policy"] = {"kind": "decline_agv", "p": 1, "seed": 1, "idle": idle}
+                sc["meta"] = {"family": "classic", "classic_instance": True, "features": [], "nj": nj, "nm": nm}
+                sc["max_steps"] = 300
+                sc["probes"] = {}
+                out.append(sc)
+    return out
 
 
 def c06_tree_scenario(jobs, tag, cfgseed=0):
@@ -522,4 +553,10 @@ class Policy:
             return 1 if o.component_id.startswith("t") or self.rnd.random() < 0.3 else 0
         if k == "decline_machine":
             return 0 if o.component_id.startswith("m") and self.rnd.random() < 0.8 else 1
+        if k == "decline_agv":
+            # a hesitant agent: idles first, then starts every operation but never calls an AGV itself
+            # (transports then only happen through the teleport pass / forced jumps)
+            if self.n <= self.spec.get("idle", 0):
+                return 0
+            return 0 if o.component_id.startswith("t") else 1
         return 1
